@@ -172,3 +172,144 @@ Theorem C10_finish_no_removal_unless_finalized :
 Proof. exact (@C10_finish_no_removal_unless_finalized). Qed.
 Print Assumptions C10_finish_no_removal_unless_finalized.
 
+From MC Require Import Model.Decorator Model.DecoratorPreds Proofs.C16Proofs Proofs.DecoratorLegs.
+
+(* ---- C10 on the decorator (Model/Decorator.v sync_d; pkg/controller/decorator/{controller.go,hooks.go},
+   pkg/controller/common/finalizer/finalizer.go), for every answer function ---- *)
+
+(* (a) which hook is called and what it is told: the clause of DecoratorPreds.C10d_round *)
+Theorem C10d_hook_choice :
+  forall (c : dcfg) (k : dcache), all_calls (C10d_hook_choice_ok c) (sync_d c k).
+Proof. exact (@DecoratorLegs.C10d_hook_choice). Qed.
+Print Assumptions C10d_hook_choice.
+
+Theorem C10d_hook_choice_iff :
+  forall (c : dcfg) (hk : hook_kind) (body : json),
+    C10d_hook_choice_ok c (CHook hk body) ->
+    let sent := jget "object" (obj_map body) in
+    (hk = HFinalize /\ jget "finalizing" (obj_map body) = JBool true /\
+     dc_has_finalize c = true /\ (is_deleting sent = true \/ d_matches c sent = false)) \/
+    (hk = HSync /\ jget "finalizing" (obj_map body) = JBool false /\
+     (dc_has_finalize c = false \/ (is_deleting sent = false /\ d_matches c sent = true))).
+Proof. exact (@DecoratorLegs.C10d_hook_choice_iff). Qed.
+Print Assumptions C10d_hook_choice_iff.
+
+Theorem C10d_no_finalize_hook_always_sync :
+  forall (c : dcfg) (k : dcache),
+    dc_has_finalize c = false ->
+    all_calls (fun cl => forall hk body, cl = CHook hk body ->
+                 hk = HSync /\ jget "finalizing" (obj_map body) = JBool false) (sync_d c k).
+Proof. exact (@DecoratorLegs.C10d_no_finalize_hook_always_sync). Qed.
+Print Assumptions C10d_no_finalize_hook_always_sync.
+
+(* the classification of every call of a sync, with the history that preceded it: a call of the
+   finalizer phase (fin_phase_call), the hook call (hook_phase_call), or a call after an accepted
+   answer (after_hook_call) *)
+Theorem C10d_sync_legs :
+  forall (c : dcfg) (k : dcache) (t : json) (rl : drule),
+    target_of c k = Some t -> client_rule c t = Some rl ->
+    forall G : call -> answer -> Prop, safe G (leg_phi c k t rl) [] (sync_d c k).
+Proof. exact (@DecoratorLegs.C10d_sync_legs). Qed.
+Print Assumptions C10d_sync_legs.
+
+(* (b) adding: never for a cached target pending deletion, never without a finalize hook, only for a
+   selected target, on a fresh read that lacks it, and before any hook call or attachment write *)
+Theorem C10d_finalizer_added :
+  forall (c : dcfg) (k : dcache) (t : json) (rl : drule) (h : hist) (cl : call),
+    leg_phi c k t rl h cl -> C10d_added_ok c k t rl h cl.
+Proof. exact (@DecoratorLegs.C10d_finalizer_added). Qed.
+Print Assumptions C10d_finalizer_added.
+
+(* (c) removing: in the finalizer phase only without a finalize hook; later only after finalized = true *)
+Theorem C10d_finalizer_removed :
+  forall (c : dcfg) (k : dcache) (t : json) (rl : drule) (h : hist) (cl : call),
+    leg_phi c k t rl h cl -> C10d_removed_ok c k t rl h cl.
+Proof. exact (@DecoratorLegs.C10d_finalizer_removed). Qed.
+Print Assumptions C10d_finalizer_removed.
+
+Theorem C10d_leftover_removed_first :
+  forall (c : dcfg) (k : dcache) (t : json) (rl : drule) (h : hist) (cl : call),
+    leg_phi c k t rl h cl -> C10d_leftover_ok c t rl h cl.
+Proof. exact (@DecoratorLegs.C10d_leftover_removed_first). Qed.
+Print Assumptions C10d_leftover_removed_first.
+
+(* (d) pending deletion without finalize duty: no attachment request after the hook *)
+Theorem C10d_handoff :
+  forall (c : dcfg) (k : dcache) (t : json) (rl : drule) (h : hist) (cl : call),
+    leg_phi c k t rl h cl -> C10d_handoff_ok c rl h cl.
+Proof. exact (@DecoratorLegs.C10d_handoff). Qed.
+Print Assumptions C10d_handoff.
+
+(* (b) (c) (d) together, for a whole sync in every environment *)
+Theorem C10d_finalizer_discipline :
+  forall (G : call -> answer -> Prop) (c : dcfg) (k : dcache) (t : json) (rl : drule),
+    target_of c k = Some t -> client_rule c t = Some rl ->
+    safe G (C10d_discipline c k t rl) [] (sync_d c k).
+Proof. exact (@DecoratorLegs.C10d_finalizer_discipline). Qed.
+Print Assumptions C10d_finalizer_discipline.
+
+Theorem C10d_finalizer_discipline_run :
+  forall (c : dcfg) (k : dcache) (t : json) (rl : drule) (e : env),
+    target_of c k = Some t -> client_rule c t = Some rl ->
+    Forall (fun hc : hist * call => C10d_discipline c k t rl (fst hc) (snd hc))
+           (calls_with_history (fst (run (sync_d c k) e []))).
+Proof. exact (@DecoratorLegs.C10d_finalizer_discipline_run). Qed.
+Print Assumptions C10d_finalizer_discipline_run.
+
+Theorem C10d_no_target_no_call :
+  forall (c : dcfg) (k : dcache),
+    (target_of c k = None \/ exists t, target_of c k = Some t /\ client_rule c t = None) ->
+    exists r, sync_d c k = Ret r.
+Proof. exact (@DecoratorLegs.C10d_no_target_no_call). Qed.
+Print Assumptions C10d_no_target_no_call.
+
+(* under a sane API server the object handed to the hook has the key of the cached target: the
+   target_put requests of the clauses above address the target *)
+Theorem C10d_handed_same_key :
+  forall (c : dcfg) (t : json) (rl : drule) (h : hist) (sent : json),
+    handed c t rl h sent -> (forall ca, In ca h -> sane (fst ca) (snd ca)) -> same_key rl t sent.
+Proof. exact (@DecoratorLegs.handed_same_key). Qed.
+Print Assumptions C10d_handed_same_key.
+
+(* the hypotheses are met by a concrete target; every clause is exercised by a concrete run *)
+Example C10d_hypotheses_met :
+  target_of (LegsEx.cfg true) (LegsEx.cache LegsEx.alive [LegsEx.owned]) = Some LegsEx.alive /\
+  client_rule (LegsEx.cfg true) LegsEx.alive = Some LegsEx.rule /\
+  d_ignores (LegsEx.cfg true) LegsEx.alive = false.
+Proof. vm_compute. repeat split. Qed.
+
+Example C10d_run_add :
+  LegsEx.tags (LegsEx.cfg true) (LegsEx.cache LegsEx.alive []) (LegsEx.env_of LegsEx.alive (LegsEx.answer_ok false)) =
+  ["get pods.v1"; "update pods.v1"; "hook:sync"; "update pods.v1"; "create configmaps.v1"].
+Proof. vm_compute. reflexivity. Qed.
+
+Example C10d_run_finalize :
+  LegsEx.tags (LegsEx.cfg true) (LegsEx.cache LegsEx.finalizing_pod [])
+              (LegsEx.env_of LegsEx.finalizing_pod (LegsEx.answer_ok true)) =
+  ["hook:finalize"; "update pods.v1"; "create configmaps.v1"].
+Proof. vm_compute. reflexivity. Qed.
+
+Example C10d_run_leftover :
+  LegsEx.tags (LegsEx.cfg false) (LegsEx.cache LegsEx.leftover []) (LegsEx.env_of LegsEx.leftover (LegsEx.answer_ok false)) =
+  ["get pods.v1"; "update pods.v1"; "hook:sync"; "update pods.v1"; "create configmaps.v1"].
+Proof. vm_compute. reflexivity. Qed.
+
+Example C10d_run_handoff :
+  let gone := LegsEx.pod LegsEx.selected LegsEx.dying in
+  LegsEx.tags (LegsEx.cfg true) (LegsEx.cache gone [LegsEx.owned]) (LegsEx.env_of gone (LegsEx.answer_ok false)) =
+    ["hook:finalize"; "update pods.v1"] /\
+  should_finalize_d (LegsEx.cfg true) gone = false /\ is_deleting gone = true.
+Proof. vm_compute. repeat split. Qed.
+
+(* (b) speaks about the cached target: with a stale cache the add-finalizer update is sent on top of a
+   live read that is pending deletion already; refusing it is the API server's job *)
+Example C10d_never_added_when_live_deleting_refuted :
+  let live := LegsEx.pod LegsEx.selected LegsEx.dying in
+  let k := LegsEx.cache LegsEx.alive [] in
+  let tr := trace_of (sync_d (LegsEx.cfg true) k) (LegsEx.env_of live (LegsEx.answer_ok false)) in
+  is_deleting LegsEx.alive = false /\ is_deleting live = true /\
+  existsb (fun ca => match ca with
+                     | (CApi q, _) => verb_eqb (q_verb q) VUpdate && is_deleting (q_body q) &&
+                                      has_finalizer (q_body q) LegsEx.fin_name
+                     | _ => false end) tr = true.
+Proof. exact (@DecoratorLegs.LegsEx.C10d_never_added_when_live_deleting_refuted). Qed.
